@@ -189,6 +189,22 @@ func cmdCheck(args []string) int {
 				fin = solveOnce(q, workDir, name, 2)
 			} else {
 				fin, all = solve(q, workDir, name, timeout, *tier == "thorough")
+				if fin.Status != "unsat" && fin.Status != "sat" && len(o.Cases) > 1 {
+					// fallback: one query per path into the merged block (all must be unsat)
+					allUnsat := true
+					var secs float64
+					for ci, c := range o.Cases {
+						r, _ := solve(o.queryWith(c), workDir, fmt.Sprintf("%s_case%d", name, ci), timeout, false)
+						secs += r.Secs
+						if r.Status != "unsat" {
+							allUnsat = false
+							break
+						}
+					}
+					if allUnsat {
+						fin = SolverResult{Status: "unsat", Solver: fmt.Sprintf("case-split(%d)", len(o.Cases)), Secs: secs}
+					}
+				}
 			}
 			mu.Lock()
 			o.Result = fin
